@@ -40,6 +40,7 @@ func runC05(c *Config, r *Report) {
 	c05R7(ic, r)
 	c05R8(ic, r, "R05.8")
 	c05R9(ic, r)
+	c05R10(ic, r)
 	c05R3(ic, r)
 	c05R5(ic, r)
 	// R05.4: method resolution and receiver binding happen per call. The run-time closures keep
@@ -566,3 +567,79 @@ func c05R9(ic *IC, r *Report) {
 	}
 }
 
+
+func init() {
+	ruleText["R05.10"] = "every run-time closure of the generator of type assertions that reports a status also gives the result its zero value when the assertion fails: the function completing the two-value form (deferred, or called on the failing paths) sets the status and, under !ok, stores reflect.Zero into the result"
+}
+
+// c05R10: v, ok = x.(T) assigns the zero value of T to v when it fails (found D76: v kept the
+// value of the previous successful assertion).
+func c05R10(ic *IC, r *Report) {
+	info := ic.Info
+	fi := ic.fn(r, "typeAssert")
+	if fi == nil {
+		return
+	}
+	// completion functions: in-package functions (or literals) that call SetBool and, under a
+	// negated boolean, Set(reflect.Zero(...)) / SetZero
+	completes := func(body ast.Node) (status, zero bool) {
+		ast.Inspect(body, func(m ast.Node) bool {
+			c, ok := m.(*ast.CallExpr)
+			if !ok {
+				return true
+			}
+			if isCallTo(info, c, "reflect.Value.SetBool") {
+				status = true
+			}
+			if isCallTo(info, c, "reflect.Value.SetZero") || (isCallTo(info, c, "reflect.Value.Set") && len(c.Args) == 1 && len(callsIn(info, c.Args[0], true, "reflect.Zero")) > 0) {
+				// under a condition negating a bool
+				for _, p := range enclosingPath(body, c) {
+					if ifs, ok := p.(*ast.IfStmt); ok {
+						ast.Inspect(ifs.Cond, func(q ast.Node) bool {
+							if ue, ok := q.(*ast.UnaryExpr); ok && ue.Op == token.NOT {
+								zero = true
+							}
+							return true
+						})
+					}
+				}
+			}
+			return true
+		})
+		return
+	}
+	n := 0
+	for k, fl := range (&c02ctx{ic: ic}).closuresOf(fi) {
+		// does the closure report a status? (a deferred call, directly or through a helper)
+		var deferred []ast.Node
+		ast.Inspect(fl.Body, func(m ast.Node) bool {
+			if ds, ok := m.(*ast.DeferStmt); ok {
+				if dl, ok := ds.Call.Fun.(*ast.FuncLit); ok {
+					deferred = append(deferred, dl.Body)
+					for _, c := range allCalls(dl.Body) {
+						if f, ok := calleeOf(info, c).(*types.Func); ok && f.Pkg() == ic.Pk.Types {
+							if hd := ic.G.Funcs[f]; hd != nil && hd.Decl.Body != nil {
+								deferred = append(deferred, hd.Decl.Body)
+							}
+						}
+					}
+				}
+			}
+			return true
+		})
+		st, ze := false, false
+		for _, d := range deferred {
+			s, z := completes(d)
+			st, ze = st || s, ze || z
+		}
+		if !st {
+			continue
+		}
+		n++
+		r.Check(ze, "R05.10", fmt.Sprintf("typeAssert/closure#%d/failed-assertion-zeroes-the-result", k+1), ic.pos(fl.Pos()), "the completion of the two-value form zeroes the result when the assertion fails",
+			"this closure of typeAssert sets the status of v, ok = x.(T) on its way out but leaves v untouched when the assertion fails: v keeps the value of a previous successful assertion ({2} false instead of {0} false)")
+	}
+	if n < 4 {
+		r.Errorf("R05.10: only %d closures of typeAssert reporting a status found", n)
+	}
+}
